@@ -41,6 +41,9 @@ type Fault struct {
 	Where string `json:"where"`
 	Page  int    `json:"page"`
 	Times int    `json:"times"`
+	// Kind of the scripted failure: "" = unexpected, "notfound", "empty" (a page request may fail for any reason; a failure
+	// is a failure whatever its category)
+	Kind string `json:"kind,omitempty"`
 }
 
 // Stop: Stop()(), Close() or cancellation of the parent context; inline before consumer call number
@@ -150,6 +153,8 @@ func errClass(err error) string {
 	switch {
 	case err == nil:
 		return ""
+	case errors.Is(err, errScriptedBase):
+		return "scripted"
 	case commonerrors.Any(err, commonerrors.ErrCancelled):
 		return "cancelled"
 	case commonerrors.Any(err, commonerrors.ErrTimeout):
